@@ -32,6 +32,11 @@ inductive Step : St → St → Prop
   | remark (s t)   : .c1 t ∈ s.fl → Step s { s with bit := true, fl := s.fl.erase (.c1 t) }
   | clearDec (s t) : .c1 t ∈ s.fl → Step s { s with cnt := s.cnt - 1, fl := .c2 t :: s.fl.erase (.c1 t) }
   | clearOwn (s t) : .c2 t ∈ s.fl → Step s { s with owner := t, fl := s.fl.erase (.c2 t) }
+  /-- a holder that does not keep the segment (visited by a collect, still in use) marks it again: `thread_id := 0` (it is 0 already),
+      then the same or / increment as a fresh mark -/
+  | reMarkStore (s t) : .c2 t ∈ s.fl → Step s { s with fl := .m1 t :: s.fl.erase (.c2 t) }
+  /-- the new owner stores its id once more (mi_segment_reclaim) -/
+  | ownAgain (s t) : s.owner = t → Step s s
 
 structure AInv (s : St) : Prop where
   token : b2n s.bit + holders s.fl + b2n (decide (s.owner ≠ 0)) = 1
@@ -174,6 +179,21 @@ theorem inv_step {s s' : St} (h : AInv s) (st : Step s s') : AInv s' := by
       · rcases List.mem_cons.1 hu with hu | hu
         · injection hu with hu; subst hu; exact htid u (Or.inr (Or.inl hm))
         · exact htid u (Or.inr (Or.inr (List.mem_of_mem_erase hu)))
+  | ownAgain t _ => exact ⟨htok, hcnt, htid⟩
+  | reMarkStore t hm =>
+    have e1 := holders_erase hm; have e2 := nM2_erase hm; have e3 := nC1_erase hm
+    refine ⟨?_, ?_, ?_⟩
+    · show b2n s.bit + holders (.m1 t :: s.fl.erase (.c2 t)) + b2n (decide (s.owner ≠ 0)) = 1
+      cnt_simp; omega
+    · show s.cnt = (b2n s.bit : Int) - nM2 (.m1 t :: s.fl.erase (.c2 t)) + nC1 (.m1 t :: s.fl.erase (.c2 t))
+      cnt_simp; omega
+    · intro u hu
+      rcases hu with hu | hu | hu
+      · rcases List.mem_cons.1 hu with hu | hu
+        · injection hu with hu; subst hu; exact htid u (Or.inr (Or.inr hm))
+        · exact htid u (Or.inl (List.mem_of_mem_erase hu))
+      · exact htid u (Or.inr (Or.inl (mem_ce hu (by intro h; cases h))))
+      · exact htid u (Or.inr (Or.inr (mem_ce hu (by intro h; cases h))))
   | clearOwn t hm =>
     have e1 := holders_erase hm; have e2 := nM2_erase hm; have e3 := nC1_erase hm
     have ht := htid t (Or.inr (Or.inr hm))
